@@ -166,4 +166,28 @@ theorem results_patterns (w : WCtx) (fs : FS) (fuel : Nat) (ps : List (List GPar
     results (ps.flatMap (patternOut w fs fuel)) = ps.flatMap (perPattern w fs fuel) := by
   rw [results_flatMap]; rfl
 
+/-- on a list whose keys are pairwise different (and not yet seen) the `seen` set changes nothing -/
+theorem uniqEv_of_nodup (w : WCtx) :
+    ∀ (l : List (Ev (List Char))) (seen : List (List Char)), ((results l).map (uniqKey w)).Nodup →
+      (∀ x ∈ results l, uniqKey w x ∉ seen) → uniqEv w seen l = l := by
+  intro l
+  induction l with
+  | nil => intro _ _ _; rfl
+  | cons e r ih =>
+    intro seen hnd hns
+    cases e with
+    | scan p => simp only [uniqEv]; rw [ih seen (by simpa using hnd) (by simpa using hns)]
+    | oof => simp only [uniqEv]; rw [ih seen (by simpa using hnd) (by simpa using hns)]
+    | y p =>
+      simp only [results_cons_y, List.map_cons, List.nodup_cons] at hnd
+      have hp : uniqKey w p ∉ seen := hns p (by simp)
+      simp only [uniqEv, hp, if_false]
+      split
+      · rw [ih seen hnd.2 (fun x hx => hns x (by simp [hx]))]
+      · rw [ih (uniqKey w p :: seen) hnd.2]
+        intro x hx hin
+        rcases List.mem_cons.1 hin with heq | hin
+        · exact hnd.1 (List.mem_map.2 ⟨x, hx, heq⟩)
+        · exact hns x (by simp [hx]) hin
+
 end WcModel
